@@ -41,6 +41,7 @@ FREQ_UNITS = ['Hz', 'kHz']
 FACTOR = {'s': 1.0, 'ms': 0.001, 'Hz': 1.0, 'kHz': 1000.0, 'mV': 0.001}
 BASE = {'s': 's', 'ms': 's', 'Hz': 'Hz', 'kHz': 'Hz', 'mV': 'V'}
 KINDS = ['S', 'R', 'L', 'F']
+SETUP = ('reset', 'arr', 'tag', 'mtag', 'ref', 'feat')
 
 
 class Dim:
